@@ -1,10 +1,10 @@
 #!/bin/sh
 # runs every inbox seed against its property's quick check on a scratch worktree; results in seeded/_results/
-mkdir -p /verif/seeded/_results
+mkdir -p ${RESULTS:-/verif/seeded/_results}
 for p in "$@"; do
   for k in 1 2; do
-    patch=/verif/seeded/_inbox/$p/patch$k.diff
-    [ -f /verif/seeded/_inbox/$p/patch$k.rebased.diff ] && patch=/verif/seeded/_inbox/$p/patch$k.rebased.diff
-    /verif/tools/seedtest_copy.sh $patch $p quick > /verif/seeded/_results/$p-$k.txt 2>&1
+    patch=${INBOX:-/verif/seeded/_inbox}/$p/patch$k.diff
+    [ -f ${INBOX:-/verif/seeded/_inbox}/$p/patch$k.rebased.diff ] && patch=${INBOX:-/verif/seeded/_inbox}/$p/patch$k.rebased.diff
+    /verif/tools/seedtest_copy.sh $patch $p quick > ${RESULTS:-/verif/seeded/_results}/$p-$k.txt 2>&1
   done
 done
